@@ -325,6 +325,12 @@ theorem CTr.cStep (cfg : CCfg) (s : CSess) (op : COp) : CTr s (cStep cfg s op).2
   | sendText bs => exact CTr.cSendStep s _
   | sendBinary bs => exact CTr.cSendStep s _
   | sendPing bs => exact CTr.cSendStep s _
+  | disconnect c r =>
+    simp only [Iora.Ws.cStep, Iora.Ws.cDisconnect]
+    split
+    · have h2 : CTr (Iora.Ws.cSendClose s c r).1 [] { (Iora.Ws.cSendClose s c r).1 with connected := false } := CTr.state id
+      simpa using (CTr.cSendClose s c r).comp h2
+    · exact CTr.state id
 
 theorem CTr.cRun (cfg : CCfg) : ∀ (ops : List COp) (s : CSess), CTr s (cRun cfg s ops).2 (cRun cfg s ops).1 := by
   intro ops
@@ -710,6 +716,12 @@ theorem cStep_bounded (cfg : CCfg) (s : CSess) (op : COp) (h : CBounded cfg s) :
   | sendText bs => exact cSendStep_bounded cfg s _ h
   | sendBinary bs => exact cSendStep_bounded cfg s _ h
   | sendPing bs => exact cSendStep_bounded cfg s _ h
+  | disconnect c r =>
+    simp only [cStep, cDisconnect]
+    split
+    · have := cSendStep_bounded cfg s (.close c r) h
+      simpa [CBounded, cSendStep] using this
+    · simpa [CBounded] using h
 
 theorem cRun_bounded (cfg : CCfg) : ∀ (ops : List COp) (s : CSess), CBounded cfg s → CBounded cfg (cRun cfg s ops).1 := by
   intro ops
